@@ -2297,11 +2297,12 @@ class SFTPGlob:
 
         self._matched = True
 
-        if self._multiple:
-            if path not in self._prev_matches:
-                self._prev_matches.add(path)
-            else:
-                return
+        # Report each path only once, whether it was matched by more than
+        # one pattern or listed more than once by the server
+        if path not in self._prev_matches:
+            self._prev_matches.add(path)
+        else:
+            return
 
         self._new_matches.append(SFTPName(path, attrs=attrs))
 
@@ -2376,7 +2377,9 @@ class SFTPGlob:
         async for entry in self._scandir(path or b'.'):
             filename = cast(bytes, entry.filename)
 
-            if filename in (b'.', b'..'):
+            # A directory entry is a single path component, so don't trust
+            # a listing which claims otherwise
+            if filename in (b'.', b'..') or b'/' in filename:
                 continue
 
             if not pattern or fnmatch(filename, pattern):
